@@ -77,13 +77,18 @@ impl Kind {
 }
 
 pub enum W {
-    Meta(MetaStore<Arc<CtlStore>>),
-    Enc(EncryptedStore<Arc<CtlStore>>),
+    Meta(MetaStore<Arc<UpStore>>),
+    Enc(EncryptedStore<Arc<UpStore>>),
 }
 
 impl W {
-    /// A fresh wrapper instance (cold metadata cache, empty in-flight set).
+    /// A fresh wrapper instance (cold metadata cache, empty in-flight set)
+    /// over `store`, multipart uploads behaving like `InMemory`'s.
     pub fn open(kind: Kind, store: Arc<CtlStore>) -> W {
+        Self::open_up(kind, UpStore::new(store, Backend::Memory).0)
+    }
+    /// A fresh wrapper instance over an explicit upload model.
+    pub fn open_up(kind: Kind, store: Arc<UpStore>) -> W {
         match kind {
             Kind::Meta => W::Meta(MetaStoreBuilder::new(store, 1000).build()),
             Kind::Enc => W::Enc(
@@ -812,4 +817,364 @@ pub fn clock(at: u64) {
 
 pub fn clock_now() -> u64 {
     anda_db_utils::verif::peek_clock().expect("logical clock installed")
+}
+
+// ---------------------------------------------------------------------------
+// UpStore: the backend's multipart upload, modelled on top of `CtlStore`.
+//
+// `CtlStore`'s own uploader journals an empty payload when `complete()` is
+// called a second time and has no post-effect scheduling point. Here an upload
+// is what it is for `InMemory`: the parts are collected, `complete()`
+// materialises their concatenation with ONE atomic put (through the gated,
+// journalling, fault-scripted `CtlStore::put_opts`), so a repeated
+// `complete()` is journalled with its true content and the materialisation
+// has both scheduling points. Two backend behaviours:
+//
+// * `Backend::Memory` — exactly `object_store::memory::InMemory`: a part is
+//   stored when `put_part` is called, `complete()` may be repeated (it
+//   re-materialises), `abort()` does nothing.
+// * `Backend::Cloud` — the shape of the S3/GCS/Azure clients: `put_part`
+//   reserves the part number when called and uploads when its future runs
+//   (one scheduling point, scriptable failure); `complete()` fails while a
+//   reserved part is missing; once `complete()` landed or `abort()` ran the
+//   upload id is gone and every further call on the handle fails.
+
+use async_trait::async_trait;
+use futures::stream::BoxStream;
+use object_store::{
+    GetOptions, GetResult, ListResult, MultipartUpload, ObjectMeta, PutMultipartOptions, PutOptions, PutResult,
+    UploadPart,
+};
+use std::sync::Mutex;
+use vcore::ctlstore::Answer;
+
+#[derive(Clone, Copy, Debug, PartialEq, Eq, Serialize, Deserialize)]
+pub enum Backend {
+    Memory,
+    Cloud,
+}
+
+#[derive(Default)]
+struct UpState {
+    part_gate: bool,
+    part_calls: u64,
+    part_script: BTreeMap<u64, Answer>,
+}
+
+/// Controls of the upload model (shared by every instance over one store).
+#[derive(Default)]
+pub struct UpCtl {
+    st: Mutex<UpState>,
+}
+
+impl UpCtl {
+    /// Cloud backend only: every part upload suspends once before it takes effect.
+    pub fn set_part_gate(&self, on: bool) {
+        self.st.lock().unwrap().part_gate = on;
+    }
+    /// Number of part uploads issued so far (Cloud backend).
+    pub fn part_calls(&self) -> u64 {
+        self.st.lock().unwrap().part_calls
+    }
+    /// Scripts the answer of the part upload with absolute index `idx`.
+    pub fn script_part(&self, idx: u64, a: Answer) {
+        self.st.lock().unwrap().part_script.insert(idx, a);
+    }
+    pub fn reset_faults(&self) {
+        self.st.lock().unwrap().part_script.clear();
+    }
+}
+
+#[derive(Debug)]
+pub struct UpStore {
+    inner: Arc<CtlStore>,
+    backend: Backend,
+    up: Arc<UpCtl>,
+}
+
+impl std::fmt::Debug for UpCtl {
+    fn fmt(&self, f: &mut std::fmt::Formatter<'_>) -> std::fmt::Result {
+        write!(f, "UpCtl")
+    }
+}
+
+impl UpStore {
+    pub fn new(inner: Arc<CtlStore>, backend: Backend) -> (Arc<UpStore>, Arc<UpCtl>) {
+        let up = Arc::new(UpCtl::default());
+        (
+            Arc::new(UpStore {
+                inner,
+                backend,
+                up: up.clone(),
+            }),
+            up,
+        )
+    }
+}
+
+impl std::fmt::Display for UpStore {
+    fn fmt(&self, f: &mut std::fmt::Formatter<'_>) -> std::fmt::Result {
+        write!(f, "UpStore({:?})", self.backend)
+    }
+}
+
+/// Suspends exactly once (self-waking), like a `CtlStore` gate.
+struct Yield(bool);
+
+impl std::future::Future for Yield {
+    type Output = ();
+    fn poll(mut self: std::pin::Pin<&mut Self>, cx: &mut std::task::Context<'_>) -> std::task::Poll<()> {
+        if self.0 {
+            self.0 = false;
+            cx.waker().wake_by_ref();
+            std::task::Poll::Pending
+        } else {
+            std::task::Poll::Ready(())
+        }
+    }
+}
+
+fn up_err(what: &str, path: &Path) -> Error {
+    Error::Generic {
+        store: "UpStore",
+        source: format!("{what} ({path})").into(),
+    }
+}
+
+#[async_trait]
+impl ObjectStore for UpStore {
+    async fn put_opts(&self, location: &Path, payload: PutPayload, opts: PutOptions) -> object_store::Result<PutResult> {
+        self.inner.put_opts(location, payload, opts).await
+    }
+
+    async fn put_multipart_opts(
+        &self,
+        location: &Path,
+        opts: PutMultipartOptions,
+    ) -> object_store::Result<Box<dyn MultipartUpload>> {
+        // the start of an upload is a backend call (scheduling point, label,
+        // power state); CtlStore's own uploader is not used
+        drop(self.inner.put_multipart_opts(location, opts.clone()).await?);
+        Ok(Box::new(UpUploader {
+            location: location.clone(),
+            store: self.inner.clone(),
+            backend: self.backend,
+            up: self.up.clone(),
+            opts,
+            parts: Arc::new(Mutex::new(Vec::new())),
+            finished: false,
+        }))
+    }
+
+    async fn get_opts(&self, location: &Path, options: GetOptions) -> object_store::Result<GetResult> {
+        self.inner.get_opts(location, options).await
+    }
+
+    async fn get_ranges(&self, location: &Path, ranges: &[std::ops::Range<u64>]) -> object_store::Result<Vec<Bytes>> {
+        self.inner.get_ranges(location, ranges).await
+    }
+
+    fn delete_stream(
+        &self,
+        locations: BoxStream<'static, object_store::Result<Path>>,
+    ) -> BoxStream<'static, object_store::Result<Path>> {
+        self.inner.delete_stream(locations)
+    }
+
+    fn list(&self, prefix: Option<&Path>) -> BoxStream<'static, object_store::Result<ObjectMeta>> {
+        self.inner.list(prefix)
+    }
+
+    fn list_with_offset(&self, prefix: Option<&Path>, offset: &Path) -> BoxStream<'static, object_store::Result<ObjectMeta>> {
+        self.inner.list_with_offset(prefix, offset)
+    }
+
+    async fn list_with_delimiter(&self, prefix: Option<&Path>) -> object_store::Result<ListResult> {
+        self.inner.list_with_delimiter(prefix).await
+    }
+
+    async fn copy_opts(&self, from: &Path, to: &Path, options: CopyOptions) -> object_store::Result<()> {
+        self.inner.copy_opts(from, to, options).await
+    }
+
+    async fn rename_opts(&self, from: &Path, to: &Path, options: RenameOptions) -> object_store::Result<()> {
+        self.inner.rename_opts(from, to, options).await
+    }
+}
+
+#[derive(Debug)]
+struct UpUploader {
+    location: Path,
+    store: Arc<CtlStore>,
+    backend: Backend,
+    up: Arc<UpCtl>,
+    opts: PutMultipartOptions,
+    /// One slot per `put_part` call, in call order; `None` = reserved, not uploaded.
+    parts: Arc<Mutex<Vec<Option<Bytes>>>>,
+    /// Cloud backend: the upload id is gone (completed or aborted).
+    finished: bool,
+}
+
+struct Landed<'a> {
+    finished: &'a mut bool,
+    cloud: bool,
+    store: &'a CtlStore,
+    from: usize,
+    path: String,
+}
+
+impl Drop for Landed<'_> {
+    fn drop(&mut self) {
+        let landed = self
+            .store
+            .ctl()
+            .journal_from(self.from)
+            .iter()
+            .any(|e| matches!(&e.mutation, vcore::ctlstore::Mutation::Put { path, .. } if *path == self.path));
+        if self.cloud && landed {
+            *self.finished = true;
+        }
+    }
+}
+
+fn payload_to_bytes(p: &PutPayload) -> Bytes {
+    let mut v = Vec::with_capacity(p.content_length());
+    for seg in p.iter() {
+        v.extend_from_slice(seg);
+    }
+    Bytes::from(v)
+}
+
+#[async_trait]
+impl MultipartUpload for UpUploader {
+    fn put_part(&mut self, payload: PutPayload) -> UploadPart {
+        let data = payload_to_bytes(&payload);
+        match self.backend {
+            Backend::Memory => {
+                self.parts.lock().unwrap().push(Some(data));
+                Box::pin(futures::future::ready(Ok(())))
+            }
+            Backend::Cloud => {
+                if self.finished {
+                    let e = up_err("part upload to a finished upload id", &self.location);
+                    return Box::pin(futures::future::ready(Err(e)));
+                }
+                let slot = {
+                    let mut p = self.parts.lock().unwrap();
+                    p.push(None);
+                    p.len() - 1
+                };
+                let (parts, up, location) = (self.parts.clone(), self.up.clone(), self.location.clone());
+                Box::pin(async move {
+                    let (gate, answer) = {
+                        let mut st = up.st.lock().unwrap();
+                        let n = st.part_calls;
+                        st.part_calls += 1;
+                        (st.part_gate, st.part_script.remove(&n))
+                    };
+                    if gate {
+                        Yield(true).await;
+                    }
+                    match answer {
+                        Some(Answer::ErrBefore) => Err(up_err("injected fault: part upload failed, nothing stored", &location)),
+                        Some(Answer::ErrAfter) => {
+                            parts.lock().unwrap()[slot] = Some(data);
+                            Err(up_err("injected fault: part stored, answer lost", &location))
+                        }
+                        None => {
+                            parts.lock().unwrap()[slot] = Some(data);
+                            Ok(())
+                        }
+                    }
+                })
+            }
+        }
+    }
+
+    async fn complete(&mut self) -> object_store::Result<PutResult> {
+        if self.finished {
+            return Err(up_err("complete of a finished upload id", &self.location));
+        }
+        let mut buf = Vec::new();
+        for p in self.parts.lock().unwrap().iter() {
+            match p {
+                Some(b) => buf.extend_from_slice(b),
+                None => return Err(up_err("complete with a missing part", &self.location)),
+            }
+        }
+        let opts = PutOptions {
+            tags: self.opts.tags.clone(),
+            attributes: self.opts.attributes.clone(),
+            ..Default::default()
+        };
+        // the upload id is consumed as soon as the materialisation landed,
+        // whatever answer reaches the caller — also when the caller drops
+        // this future while the answer is in flight
+        let _landed = Landed {
+            finished: &mut self.finished,
+            cloud: self.backend == Backend::Cloud,
+            store: &self.store,
+            from: self.store.ctl().journal_len(),
+            path: self.location.to_string(),
+        };
+        self.store.put_opts(&self.location, PutPayload::from(buf), opts).await
+    }
+
+    async fn abort(&mut self) -> object_store::Result<()> {
+        if self.store.ctl().is_powered_off() {
+            return Err(up_err("abort: power failure", &self.location));
+        }
+        match self.backend {
+            Backend::Memory => Ok(()),
+            Backend::Cloud => {
+                if self.finished {
+                    return Err(up_err("abort of a finished upload id", &self.location));
+                }
+                self.finished = true;
+                Ok(())
+            }
+        }
+    }
+}
+
+// ---------------------------------------------------------------------------
+// driving a future by hand (abandoning it at a chosen suspension point)
+
+struct WakeFlag(std::sync::atomic::AtomicBool);
+
+impl std::task::Wake for WakeFlag {
+    fn wake(self: Arc<Self>) {
+        self.0.store(true, std::sync::atomic::Ordering::SeqCst);
+    }
+    fn wake_by_ref(self: &Arc<Self>) {
+        self.0.store(true, std::sync::atomic::Ordering::SeqCst);
+    }
+}
+
+/// Polls `f` until it is ready, or until `stop(polls made so far)` says so
+/// (asked before every poll): then `f` is dropped where it is suspended.
+/// Returns the output (None = dropped while pending) and the polls made.
+pub fn drive_until<F: std::future::Future>(f: F, mut stop: impl FnMut(u32) -> bool) -> (Option<F::Output>, u32) {
+    use std::sync::atomic::Ordering;
+    let flag = Arc::new(WakeFlag(std::sync::atomic::AtomicBool::new(true)));
+    let waker = std::task::Waker::from(flag.clone());
+    let mut cx = std::task::Context::from_waker(&waker);
+    let mut f = std::pin::pin!(f);
+    let mut polls = 0u32;
+    loop {
+        if stop(polls) {
+            return (None, polls);
+        }
+        flag.0.store(false, Ordering::SeqCst);
+        polls += 1;
+        if let std::task::Poll::Ready(v) = f.as_mut().poll(&mut cx) {
+            return (Some(v), polls);
+        }
+        if !flag.0.load(Ordering::SeqCst) {
+            vcore::report::machinery("a call blocked with no wake-up (a lock left behind by a dropped future?)");
+        }
+        if polls > 100_000 {
+            vcore::report::machinery("livelock while driving a call");
+        }
+    }
 }
